@@ -52,3 +52,18 @@ Definition predict (g : guards) (c : ccase) : oclass :=
    instead so that it answers OutOfFuel only when the recursion really goes on *)
 Definition model_ok (c : ccase) : bool := oclass_eqb (predict code_guards c) (c_obs c).
 Definition spec_ok (c : ccase) : bool := spec_class_ok (c_obs c).
+
+(* the detector of Model.v (wv_check) against the implementation: printing crashed
+   exactly when a struct is re-entered while open (supports, empirically, the
+   converse of write_value_total_or_struct_cycle, which is not proved) *)
+Definition detector_ok (c : ccase) : bool :=
+  match c_op c with
+  | 0 =>
+      let h := c_heap c in
+      match wv_check (cube_bound h) h [] [] (c_root c) with
+      | WStructCycle => oclass_eqb (c_obs c) CCrash
+      | WDone => oclass_eqb (c_obs c) CValue
+      | _ => false
+      end
+  | _ => true
+  end.
